@@ -269,6 +269,7 @@ func (s *store) authenticate(username, password string) (result authenticateResu
 			verifEvent("upgrade.sent", username, password)
 		default:
 			wdl.Printf("upgrade: queue is full, skipping upgrade request for '%s'", username)
+			verifEvent("upgrade.drop", username, password)
 		}
 	}
 	return
@@ -301,6 +302,7 @@ func (s *store) dispatchRequests() {
 				// current one (the user may have changed or lost it in the meantime)
 				if ok, _, upgradeable, _, _ := s.dir.Authenticate(req.username, req.password); !ok || !upgradeable {
 					wdl.Printf("upgrade(local): ignoring outdated upgrade request for '%s'", req.username)
+					verifEvent("upgrade.skip", req.username, req.password)
 				} else if resp := s.update(req.username, req.password); resp.err != nil {
 					wl.Printf("upgrade(local): failed for '%s': %v", req.username, resp.err)
 				} else {
